@@ -521,7 +521,7 @@ def run(ctx):
     items, meta = [], {}
     n_b = ctx.pick(3, 60)
     brng = ctx.rng("b")
-    n_bt = ctx.pick(8, 40)
+    n_bt = ctx.pick(12, 40)
     for i in range(n_b + n_bt):
         textonly = i >= n_b
         g = gen.SGen(brng, procs=(textonly or i % 4 != 3), clash=(i % 5 == 1), allow_cb=(i % 3 == 0))
@@ -553,14 +553,14 @@ def run(ctx):
     thb.start()
     rng = ctx.rng("gen")
     srng = ctx.rng("stores")
-    n_a = ctx.pick(40, 1400)
+    n_a = ctx.pick(170, 1400)
     n_def = ctx.pick(3, 40)
     nstores = ctx.pick(3, 5)
     plan = []
     # focused programs first: only lowered constructs, all in the Coq-modelled subset when `simple`
     FOCUS = [("select", "where1"), ("where1", "select"), ("loop", "where1"), ("select", "select"), ("where1", "where1"),
              ("where2", "aassign"), ("elif", "where1", "ifs"), ("select", "loop"), ("loop", "loop")]
-    n_focus = ctx.pick(18, 180)
+    n_focus = ctx.pick(30, 180)
     for i in range(n_focus):
         f = FOCUS[i % len(FOCUS)]
         plan.append(dict(simple=("where2" not in f and i % 4 != 3), clash=(i % 5 == 2), defects=(), allow_cb=False, focus=f))
